@@ -118,7 +118,8 @@ PENDING_REASON = "no solver-based check is registered for this property yet in t
 ADDENDA = {
     "C01": "Fixed-width integer casts are modelled as numpy performs them (a cast of cn to int32 is decided, not aborted).",
     "C02": "Also tables in which a chromosome is revisited (its rows not contiguous).",
-    "C04": "Also: do_fix on the same bins with the rows of target, antitarget and reference reversed / rotated / swapped against the call on sorted rows, corrections on and off, distinct and tied covariates (same bins, genomic order, same log2 and weight: found D17, fixed); a chrX target bin in the arithmetic harness (centring is over the autosomes).",
+    "C03": "Two concrete gene namings (placeholders -, ., CGH, Background among the first bins in the configurations without filters).",
+    "C04": "Also: do_fix on the same bins with the rows of target, antitarget and reference reversed / rotated / swapped against the call on sorted rows, corrections on and off, distinct and tied covariates (same bins, genomic order, same log2 and weight: found D17, fixed); a chrX target bin in the arithmetic harness (centring is over the autosomes); matching on the same start/end tiling on two chromosomes (reference chromosomes in the other order; the sample's second chromosome absent from the reference must be refused).",
     "C05": "Also: do_reference with the sexes inferred (guess_xx's answer solver-chosen per file: antitarget call, else target call), null-coverage antitarget bins, target files listed in another order, and summarize_info with the real biweight estimators on two structured families (far outlier discarded low and high; >= 2 normals that agree after centring reproduce their level with spread 0); a panel with chrY but no chrX bins; stated sexes; combine_probes with the edge correction on for normals that differ only in depth.",
     "C08": "Name pool includes upper/mixed-case chr prefixes.",
     "C09": "Bins as long as a chromosome (depth below 2^-20 reachable), bins past a symbolic contig end, a bin name containing a blank; interval_coverages_count with 1 vs N workers over an in-process stand-in pool; ensure_bam_index over a dictionary file system with symbolic modification times.",
